@@ -1,4 +1,10 @@
+import os
+import sys
+
 from runner import H
+
+sys.path.insert(0, os.path.join(os.path.dirname(os.path.dirname(os.path.abspath(__file__))), "mir2smt"))
+import driver  # noqa: E402
 
 F_T = ["apollo_parser::LimitTracker::check_and_increment", "LimitTracker::decrement", "LimitTracker::new"]
 F_LEX = ["<apollo_parser::Lexer as Iterator>::next (limit gate)", "Lexer::with_limit", "Cursor::advance", "Error::limit"]
@@ -15,6 +21,8 @@ SPEC = {
     "unsafe_checks": False,
     "cursor_access": True,
     "exhaustive": True,
+    "pre": driver.c04_pre,
+    "engine": "Kani 0.68 / CBMC 6.11 (cadical) + MIR->SMT (z3 4.8.12, cvc5 1.0.3)",
     "timeout": {"quick": 900, "thorough": 3000},
     "jobs": 8,
     "harnesses": [
@@ -30,6 +38,9 @@ SPEC = {
     ],
     "stubs": ["alloc::fmt::format -> empty String"],
     "assumptions": [
+        "E2: the MIR bodies of LimitTracker::check_and_increment (with decrement inlined) and decrement are executed symbolically into "
+        "64-bit bit-vector terms (overflow checks on) and the negated property is sent to z3 and cvc5: a second, independent decision "
+        "of the same full-domain claim",
         "LimitTracker is decided on its full domain (3 x 64-bit words); the representation invariant current <= high is assumed "
         "(it is established by new() and preserved by both operations: checked by the same harnesses)",
         "lexer gate: inputs of at most one character (see C03 for why); the token limit is a fully symbolic usize",
